@@ -70,6 +70,9 @@ func init() {
 						if ranged, _ := isRangeLoop(l); ranged {
 							continue
 						}
+						if countedUp(l) {
+							continue // i steps up to a bound fixed before the loop: finitely many iterations
+						}
 						cons := fmt.Sprintf("loop#%d", li+1)
 						pos := firstPos(l.head)
 						// (P) progress
@@ -376,4 +379,103 @@ func firstPos(b *ssa.BasicBlock) token.Pos {
 		}
 	}
 	return token.NoPos
+}
+
+// countedUp: the loop is `for i := a; i < b; i += k` (k > 0 constant) with b computed before the loop
+// and the counter not assigned otherwise: it terminates whatever the input is.
+func countedUp(l *natLoop) bool {
+	h := l.head
+	iff, ok := h.Instrs[len(h.Instrs)-1].(*ssa.If)
+	if !ok {
+		return false
+	}
+	c, ok := iff.Cond.(*ssa.BinOp)
+	if !ok {
+		return false
+	}
+	ind, bound := c.X, c.Y
+	switch c.Op {
+	case token.LSS, token.LEQ:
+	case token.GTR, token.GEQ:
+		ind, bound = c.Y, c.X
+	default:
+		return false
+	}
+	// the loop is left on the false edge
+	if l.body[h.Succs[1]] && !l.body[h.Succs[0]] {
+		return false
+	}
+	phi, ok := ind.(*ssa.Phi)
+	if !ok || phi.Block() != h {
+		return false
+	}
+	for i, e := range phi.Edges {
+		if !l.body[h.Preds[i]] {
+			continue // entry value
+		}
+		step, ok := e.(*ssa.BinOp)
+		if !ok || step.Op != token.ADD || step.X != ssa.Value(phi) {
+			return false
+		}
+		if k, ok := constInt(step.Y); !ok || k <= 0 {
+			return false
+		}
+	}
+	switch b := bound.(type) {
+	case *ssa.Const, *ssa.Parameter:
+		return true
+	case ssa.Instruction:
+		if !l.body[b.Block()] {
+			return true
+		}
+	}
+	// re-read in the header from a local that nothing in the loop writes (`i < r[1]`, r a local array)
+	if ld, ok := bound.(*ssa.UnOp); ok && ld.Op == token.MUL {
+		var base ssa.Value = ld.X
+		for {
+			switch a := base.(type) {
+			case *ssa.IndexAddr:
+				base = a.X
+				continue
+			case *ssa.FieldAddr:
+				base = a.X
+				continue
+			}
+			break
+		}
+		al, ok := base.(*ssa.Alloc)
+		if !ok {
+			return false
+		}
+		// the local is only read and written in place (its address goes nowhere), and not written in the loop
+		var ok2 func(v ssa.Value) bool
+		ok2 = func(v ssa.Value) bool {
+			for _, ref := range *v.Referrers() {
+				switch x := ref.(type) {
+				case *ssa.IndexAddr:
+					if x.X != v || !ok2(x) {
+						return false
+					}
+				case *ssa.FieldAddr:
+					if !ok2(x) {
+						return false
+					}
+				case *ssa.UnOp:
+					if x.Op != token.MUL {
+						return false
+					}
+				case *ssa.Store:
+					if x.Addr != v || l.body[x.Block()] {
+						return false
+					}
+				case *ssa.DebugRef:
+				default:
+					return false
+				}
+			}
+			return true
+		}
+		return ok2(al)
+	}
+	return false
 }
